@@ -423,6 +423,11 @@ def check_case(case, ctx):
     req = _request(kind, form)
     if req is None:
         return []
+    if fam in ("http", "wap") and (len(kind) + len(errname) + case["size"]) % 2 == 0:
+        # request headers by which intermediaries (or anybody) name other addresses: the record names the peer of the connection
+        req = req.replace(b"Host: gopher.example\r\n", b"Host: gopher.example\r\nX-Forwarded-For: 192.0.2.66, 198.51.100.7\r\n"
+                          b"Forwarded: for=192.0.2.66\r\nX-Real-IP: 192.0.2.66\r\nClient-IP: 192.0.2.66\r\nVia: 1.1 192.0.2.66\r\n")
+        ctx.label("names-other-addresses")
     base, root = world.build(_spec(case["size"], case["nmenu"]))
     fails = []
     try:
